@@ -1,10 +1,16 @@
 """C13 - every switch request is answered once, with its xid, in order.
 
-All request sequences of length <=2 (quick) / <=3 (thorough) over ~36 controller-to-switch messages,
-sent as spec-encoded bytes through the real RecocoIOWorker -> OFConnection -> SoftwareSwitch stack;
-plus one long deterministic history containing every ordered pair of requests.  The reply stream is
-decoded with the independent wire decoder (mc/refs/ofwire.py) and compared with a small reference
-model of the switch's visible state (config, flow count, port counters).
+All request sequences of length <=3 over the controller-to-switch messages of `requests()` (thorough: one request
+deeper behind state-affecting prefixes), sent as spec-encoded bytes through the real RecocoIOWorker -> OFConnection ->
+SoftwareSwitch stack; plus long deterministic histories containing every ordered pair of requests.  The reply stream
+is decoded with the independent wire decoder (mc/refs/ofwire.py) and compared with a small reference
+model of the switch's visible state (config, flow table of capacity 2, port/table counters, packet buffers).
+
+Flow-mods are described declaratively (command x match x flags x buffer_id kind) and their expected answer
+is computed from the history: whether the flow-mod is carried out or refused (BAD_COMMAND, emergency flag,
+OVERLAP, ALL_TABLES_FULL) x whether the buffer_id it carries is absent, never issued, already used or valid.
+Two further families enumerate histories over sub-alphabets: the flow family (all flow-mods + buffers + read-backs)
+and, one request deeper, the buffer family (see `histories`).
 """
 import itertools, struct
 from mc.engine import pmap, split
@@ -16,10 +22,26 @@ FRAME = bytes.fromhex("0000000000020000000000010800") + b"\x45\x00\x00\x1c" + b"
 MAC1 = lambda dpid, port: bytes.fromhex("02%06x%04x" % (dpid % 0xffff, port))
 
 
+FM_MATCH = {"in1": W.match_fields(in_port=1), "in2": W.match_fields(in_port=2), "in3": W.match_fields(in_port=3),
+            "all": W.match()}
+BAD_BUFFER = 77            # never handed out: the switch has 4 buffers
+CAPACITY = 2               # flow table capacity of the switch under test (see _stack)
+
+
+def flow_req (cmd, key, out=None, flags=0, buf=None):
+  """A flow-mod: command x match (in1/in2/in3/all) x one output action (or none) x flags x buffer_id kind
+  (None = no buffer, 'bad' = an id the switch never hands out, 'last' = the id of the most recent packet-in).
+  Returns (builder, expectation descriptor); the answer is worked out by Model.flow_step."""
+  acts = W.a_output(out) if out is not None else b""
+  def build (x, b=1):
+    bid = W.NO_BUFFER if buf is None else (BAD_BUFFER if buf == "bad" else b)
+    return W.flow_mod(x, FM_MATCH[key], cmd, acts, flags=flags, buffer_id=bid)
+  return build, ("flow", cmd, key, out, flags, buf)
+
+
 def requests ():
   """name -> (builder(xid) -> bytes, expectation).  expectation: ('reply', TYPE) | ('error', etype, code|None)
-  | ('none',)"""
-  m_in1 = W.match_fields(in_port=1)
+  | ('none',) | ('answer',) | ('buffer',) | ('flow', command, match key, out port, flags, buffer kind)"""
   R = []
   a = R.append
   a(("echo-empty", lambda x: W.echo_request(x), ("reply", W.ECHO_REPLY)))
@@ -47,16 +69,33 @@ def requests ():
   a(("stats-aggregate-table1", lambda x: W.stats_request(x, W.OFPST_AGGREGATE, W.flow_stats_body(table_id=1)), ("stats", W.OFPST_AGGREGATE)))
   a(("queue-get-config-absent", lambda x: W.queue_get_config_request(x, 99), ("answer",)))
   a(("echo-big", lambda x: W.echo_request(x, bytes(range(256)) * 5), ("reply", W.ECHO_REPLY)))
-  a(("flow-modify", lambda x: W.flow_mod(x, W.match_fields(in_port=1), W.OFPFC_MODIFY, W.a_output(3)), ("none",)))
-  a(("flow-delete-strict", lambda x: W.flow_mod(x, W.match_fields(in_port=2), W.OFPFC_DELETE_STRICT), ("none",)))
+  a(("flow-modify",) + flow_req(W.OFPFC_MODIFY, "in1", 3))
+  a(("flow-delete-strict",) + flow_req(W.OFPFC_DELETE_STRICT, "in2"))
   a(("stats-vendor", lambda x: W.stats_request(x, W.OFPST_VENDOR, struct.pack("!L", 0x2320)), ("error", W.OFPET_BAD_REQUEST, None)))
   a(("stats-unknown", lambda x: W.stats_request(x, 9), ("error", W.OFPET_BAD_REQUEST, W.OFPBRC_BAD_STAT)))
   a(("queue-get-config", lambda x: W.queue_get_config_request(x, 1), ("reply", W.QUEUE_GET_CONFIG_REPLY)))
-  a(("flow-add", lambda x: W.flow_mod(x, m_in1, W.OFPFC_ADD, W.a_output(2)), ("none",)))
-  a(("flow-add-other", lambda x: W.flow_mod(x, W.match_fields(in_port=2), W.OFPFC_ADD, W.a_output(1)), ("none",)))
-  a(("flow-bad-command", lambda x: W.flow_mod(x, m_in1, 9, W.a_output(2)), ("error", W.OFPET_FLOW_MOD_FAILED, W.OFPFMFC_BAD_COMMAND)))
-  a(("flow-emerg", lambda x: W.flow_mod(x, m_in1, W.OFPFC_ADD, W.a_output(2), flags=W.OFPFF_EMERG), ("error", W.OFPET_FLOW_MOD_FAILED, None)))
-  a(("flow-delete-all", lambda x: W.flow_mod(x, W.match(), W.OFPFC_DELETE), ("none",)))
+  a(("flow-add",) + flow_req(W.OFPFC_ADD, "in1", 2))
+  a(("flow-add-other",) + flow_req(W.OFPFC_ADD, "in2", 1))
+  a(("flow-bad-command",) + flow_req(9, "in1", 2))
+  a(("flow-emerg",) + flow_req(W.OFPFC_ADD, "in1", 2, flags=W.OFPFF_EMERG))
+  a(("flow-delete-all",) + flow_req(W.OFPFC_DELETE, "all"))
+  # the remaining flow-mod commands, a third flow (the table holds two) and an ADD that asks for the overlap check
+  a(("flow-modify-strict",) + flow_req(W.OFPFC_MODIFY_STRICT, "in1", 4))
+  a(("flow-delete-in1",) + flow_req(W.OFPFC_DELETE, "in1"))
+  a(("flow-add-third",) + flow_req(W.OFPFC_ADD, "in3", 4))
+  a(("flow-add-check-overlap",) + flow_req(W.OFPFC_ADD, "in1", 2, flags=W.OFPFF_CHECK_OVERLAP))
+  # flow-mods that carry a buffer_id: every command with an id that was never handed out; ADD/MODIFY/MODIFY_STRICT with
+  # the id of the most recent packet-in (valid once, used afterwards); refused flow-mods that also name a bad buffer
+  a(("flow-add-bad-buffer",) + flow_req(W.OFPFC_ADD, "in1", 2, buf="bad"))
+  a(("flow-modify-bad-buffer",) + flow_req(W.OFPFC_MODIFY, "in1", 4, buf="bad"))
+  a(("flow-modify-strict-bad-buffer",) + flow_req(W.OFPFC_MODIFY_STRICT, "in1", 4, buf="bad"))
+  a(("flow-delete-bad-buffer",) + flow_req(W.OFPFC_DELETE, "in1", buf="bad"))
+  a(("flow-delete-strict-bad-buffer",) + flow_req(W.OFPFC_DELETE_STRICT, "in1", buf="bad"))
+  a(("flow-add-last-buffer",) + flow_req(W.OFPFC_ADD, "in1", 2, buf="last"))
+  a(("flow-modify-last-buffer",) + flow_req(W.OFPFC_MODIFY, "in1", 4, buf="last"))
+  a(("flow-modify-strict-last-buffer",) + flow_req(W.OFPFC_MODIFY_STRICT, "in1", 4, buf="last"))
+  a(("flow-emerg-bad-buffer",) + flow_req(W.OFPFC_ADD, "in1", 2, flags=W.OFPFF_EMERG, buf="bad"))
+  a(("flow-bad-command-bad-buffer",) + flow_req(9, "in1", 2, buf="bad"))
   a(("port-mod", lambda x: W.port_mod(x, 1, MAC1(1, 1), W.OFPPC_NO_FLOOD, W.OFPPC_NO_FLOOD), ("none",)))
   a(("port-mod-absent", lambda x: W.port_mod(x, 99, MAC1(1, 1), 0, 0), ("error", W.OFPET_PORT_MOD_FAILED, W.OFPPMFC_BAD_PORT)))
   a(("port-mod-bad-hw", lambda x: W.port_mod(x, 1, b"\x02\xaa\xaa\xaa\xaa\xaa", 0, 0), ("error", W.OFPET_PORT_MOD_FAILED, W.OFPPMFC_BAD_HW_ADDR)))
@@ -81,31 +120,120 @@ def requests ():
 
 
 class Model (object):
-  """What a controller can infer about the switch from the requests it sent."""
+  """What a controller can infer about the switch from the requests it sent and the answers it saw.
+  A value of None (tx, lookups, matched) or vague=True (flow table) means "the specification does not say what the
+  switch did"; clauses that depend on such a value are not evaluated until the value is known again."""
   def __init__ (self):
     self.miss_send_len = 128; self.flags = 0
-    self.flows = set()
-    self.out2 = False           # does flow "in1" currently output to port 2?
+    self.flows = {}             # "in1"/"in2"/"in3" -> port its single output action names
+    self.vague = False          # table contents not determined (a flow-mod was answered with a buffer error)
     self.tx = {1: 0, 2: 0, 3: 0, 4: 0}
     self.lookups = 0; self.matched = 0          # table counters (packets submitted to the table)
     self.issued = set(); self.used = set(); self.last_buf = None      # buffer ids seen in packet-ins / consumed
+    self.limbo = set()          # issued ids of which it is not specified whether they were consumed
+
+  def count (self, pred=lambda k, o: True):
+    return sum(1 for k, o in self.flows.items() if pred(k, o))
+
   def apply (self, name):
     if name == "set-config-64": self.miss_send_len, self.flags = 64, 0
     elif name == "set-config-0": self.miss_send_len, self.flags = 0, 0
-    elif name == "flow-modify": self.flows.add("in1"); self.out2 = False
-    elif name == "flow-delete-strict": self.flows.discard("in2")
     elif name == "set-config-max": self.miss_send_len, self.flags = 0xffff, 1
-    elif name == "flow-add": self.flows.add("in1"); self.out2 = True
-    elif name == "flow-add-other": self.flows.add("in2")
-    elif name == "flow-delete-all": self.flows.clear()
-    elif name == "packet-out": self.tx[2] += 1
-    elif name == "packet-out-table-1":
-      self.lookups += 1
-      if "in1" in self.flows:
-        self.matched += 1
-        self.tx[2 if self.out2 else 3] += 1
-    elif name == "packet-out-table-3":
-      self.lookups += 1
+    elif name == "packet-out": self.sent(2)
+    elif name == "packet-out-table-1": self.lookup("in1")
+    elif name == "packet-out-table-3": self.lookup("in3")
+
+  def sent (self, port):
+    if self.tx is not None: self.tx[port] += 1
+
+  def lookup (self, key):
+    if self.lookups is not None: self.lookups += 1
+    if self.vague:
+      self.matched = None; self.tx = None
+    elif key in self.flows:
+      if self.matched is not None: self.matched += 1
+      self.sent(self.flows[key])
+
+  def buffer_state (self, b_id):
+    if b_id not in self.issued: return "unknown"
+    if b_id in self.limbo: return "limbo"
+    if b_id in self.used: return "empty"
+    return "ok"
+
+  def buffer_maybe_used (self, b_id, out):
+    """The packet in buffer b_id may or may not have been sent / released."""
+    self.limbo.add(b_id)
+    if out is not None: self.tx = None
+
+  def buffer_used (self, b_id, out):
+    self.used.add(b_id)
+    if out is not None: self.sent(out)
+    # whether a buffered packet handed to a flow-mod counts as a table lookup is not specified
+    self.lookups = None; self.matched = None
+
+  def flow_step (self, desc, b_id):
+    """Expected answer to a flow-mod and its effect: returns (expectation, effect(replies))."""
+    _, cmd, key, out, flags, buf = desc
+    FMF, BR = W.OFPET_FLOW_MOD_FAILED, W.OFPET_BAD_REQUEST
+    bs = None if buf is None else self.buffer_state(b_id)
+    buf_err = {"unknown": (BR, W.OFPBRC_BUFFER_UNKNOWN), "empty": (BR, W.OFPBRC_BUFFER_EMPTY), "limbo": (BR, None)}.get(bs)
+    nothing = lambda replies: None
+    # -- is the flow-mod itself carried out?
+    rej = None; change = None
+    if cmd not in (W.OFPFC_ADD, W.OFPFC_MODIFY, W.OFPFC_MODIFY_STRICT, W.OFPFC_DELETE, W.OFPFC_DELETE_STRICT):
+      rej = (FMF, W.OFPFMFC_BAD_COMMAND)
+    elif flags & W.OFPFF_EMERG:
+      rej = (FMF, None)                     # emergency entries are not supported; the specification names no single code
+    elif cmd in (W.OFPFC_DELETE, W.OFPFC_DELETE_STRICT):
+      def change ():
+        if key == "all": self.flows.clear(); self.vague = False
+        else: self.flows.pop(key, None)
+      if bs is None:
+        return ("none",), lambda replies: change()
+      # buffer_id is "not meaningful for OFPFC_DELETE*": silence and a BAD_REQUEST error are both fine
+      def eff (replies):
+        if replies: self.vague = True
+        else: change()
+        if bs == "ok": self.buffer_maybe_used(b_id, out)
+      return ("maybe", BR), eff
+    elif self.vague:
+      # the table contents are not determined, so neither is OVERLAP / ALL_TABLES_FULL
+      def eff (replies):
+        if bs == "ok": self.buffer_maybe_used(b_id, out)
+      if bs in ("unknown", "empty"):      # refused for one reason or the other (or both), never silence
+        return ("errors", ((FMF, None), buf_err)), eff
+      return ("any",), eff
+    else:
+      as_add = cmd == W.OFPFC_ADD or key not in self.flows
+      if cmd == W.OFPFC_ADD and (flags & W.OFPFF_CHECK_OVERLAP) and key in self.flows:
+        rej = (FMF, W.OFPFMFC_OVERLAP)
+      elif as_add and key not in self.flows and len(self.flows) >= CAPACITY:
+        rej = (FMF, W.OFPFMFC_ALL_TABLES_FULL)
+      else:
+        def change (): self.flows[key] = out
+    if rej is not None:
+      if bs is None: return ("error",) + rej, nothing
+      if bs == "ok":
+        # refused flow-mod naming a valid buffer: whether the buffer is still released is not specified
+        return ("error",) + rej, lambda replies: self.buffer_maybe_used(b_id, out)
+      # refused for two reasons: either error (or one of each) answers the request
+      return ("errors", (rej, buf_err)), nothing
+    # carried out
+    if bs is None: return ("none",), lambda replies: change()
+    if bs in ("unknown", "empty"):
+      # the error is specified; whether the table was changed before the buffer was looked at is not
+      def eff (replies): self.vague = True
+      return ("error",) + buf_err, eff
+    if bs == "limbo":
+      def eff (replies):
+        if replies: self.vague = True
+        else: change()
+        self.tx = None if out is not None else self.tx
+        self.lookups = None; self.matched = None
+      return ("maybe", BR), eff
+    def eff (replies):
+      change(); self.buffer_used(b_id, out)
+    return ("none",), eff
 
 
 def check_history (names, reqs, rep, stack_factory, batch=False, raws=None):
@@ -134,15 +262,27 @@ def check_history (names, reqs, rep, stack_factory, batch=False, raws=None):
     stream = st.drain()
     return [], stream
   total = b""
+  BR = W.OFPET_BAD_REQUEST
+  check_history.refused = False
   for i, (n, x, raw) in enumerate(zip(names, xids, raws)):
     exp = reqs[n][1]
+    post = lambda replies, n=n: model.apply(n)
     if exp[0] == "buffer":
       b_id = model.last_buf or 1
       raw = raws[i] = reqs[n][0](x, b_id)
-      if b_id not in model.issued: exp = ("error", W.OFPET_BAD_REQUEST, W.OFPBRC_BUFFER_UNKNOWN)
-      elif b_id in model.used: exp = ("error", W.OFPET_BAD_REQUEST, W.OFPBRC_BUFFER_EMPTY)
+      bs = model.buffer_state(b_id)
+      post = lambda replies: None
+      if bs == "unknown": exp = ("error", BR, W.OFPBRC_BUFFER_UNKNOWN)
+      elif bs == "empty": exp = ("error", BR, W.OFPBRC_BUFFER_EMPTY)
+      elif bs == "limbo":
+        exp = ("maybe", BR); model.tx = None
       else:
-        exp = ("none",); model.used.add(b_id); model.tx[2] += 1
+        exp = ("none",); model.used.add(b_id); model.sent(2)
+    elif exp[0] == "flow":
+      b_id = model.last_buf or 1
+      if exp[5] == "last": raw = raws[i] = reqs[n][0](x, b_id)
+      elif exp[5] == "bad": b_id = BAD_BUFFER
+      exp, post = model.flow_step(exp, b_id)
     try:
       st.feed(raw)
     except Exception as e:
@@ -155,30 +295,32 @@ def check_history (names, reqs, rep, stack_factory, batch=False, raws=None):
       bad.append(("%s:%s:garbled-output" % (PID, n), "switch wrote bytes that do not frame as OpenFlow messages")); break
     ds = [W.decode(m) for m in msgs]
     replies = [d for d in ds if d["type"] not in W.ASYNC_TYPES]
+    if any(d["type"] == W.ERROR for d in replies): check_history.refused = True
     for d in ds:
       if d["type"] == W.PACKET_IN and d.get("buffer_id", W.NO_BUFFER) != W.NO_BUFFER:
-        model.issued.add(d["buffer_id"]); model.used.discard(d["buffer_id"]); model.last_buf = d["buffer_id"]
-    for d in ds:
-      if d["type"] in W.ASYNC_TYPES and d["xid"] == x and d["type"] != W.HELLO:
-        pass
+        model.issued.add(d["buffer_id"]); model.used.discard(d["buffer_id"]); model.limbo.discard(d["buffer_id"])
+        model.last_buf = d["buffer_id"]
     if st.worker.closed or st.worker._shutdown_send:
       bad.append(("%s:%s:connection-dropped" % (PID, n), "switch closed the connection after %s" % n)); break
     kind = exp[0]
     if kind == "none":
       if replies:
         bad.append(("%s:%s:unexpected-reply" % (PID, n), "%s needs no reply but the switch sent %s" % (n, [r["t"] for r in replies])))
-      model.apply(n)
+      post(replies)
       continue
-    if len(replies) == 0:
+    most = len(exp[1]) if kind == "errors" else 1
+    if len(replies) == 0 and kind not in ("maybe", "any"):
       bad.append(("%s:%s:no-reply" % (PID, n), "%s (xid %#x) produced neither a reply nor an error" % (n, x)))
-      model.apply(n); continue
-    if len(replies) > 1:
+      post(replies); continue
+    if len(replies) > most:
       bad.append(("%s:%s:multiple-replies" % (PID, n), "%s produced %d messages: %s" % (n, len(replies), [r["t"] for r in replies])))
+      if kind in ("maybe", "any", "errors"): post(replies)
       continue
-    r = replies[0]
-    if r["xid"] != x:
-      bad.append(("%s:%s:wrong-xid" % (PID, n), "%s sent with xid %#x answered with xid %#x" % (n, x, r["xid"])))
-    if kind == "answer":
+    for r in replies:
+      if r["xid"] != x:
+        bad.append(("%s:%s:wrong-xid" % (PID, n), "%s sent with xid %#x answered with xid %#x" % (n, x, r["xid"])))
+    r = replies[0] if replies else None
+    if kind in ("answer", "any") or r is None:
       pass        # any single reply or error will do (specification names no code)
     elif kind == "reply":
       if r["type"] != exp[1]:
@@ -190,19 +332,25 @@ def check_history (names, reqs, rep, stack_factory, batch=False, raws=None):
         bad.append(("%s:%s:wrong-reply-type" % (PID, n), "%s answered with %s/%s" % (n, r["t"], r.get("stype"))))
       else:
         bad.extend(check_body(n, r, raw, model, st))
-    elif kind == "error":
-      if r["type"] != W.ERROR:
-        bad.append(("%s:%s:wrong-reply-type" % (PID, n), "%s must be refused with an error, got %s" % (n, r["t"])))
-      else:
-        if r["etype"] != exp[1] or (exp[2] is not None and r["code"] != exp[2]):
-          bad.append(("%s:%s:wrong-error-code" % (PID, n), "%s refused with error type %d code %d, specification says type %d code %s"
-                      % (n, r["etype"], r["code"], exp[1], exp[2])))
+    else:
+      # error | maybe (an error of the given type, if anything) | errors (one error per reason, at least one)
+      allowed = [tuple(exp[1:])] if kind == "error" else [(exp[1], None)] if kind == "maybe" else list(exp[1])
+      for r in replies:
+        if r["type"] != W.ERROR:
+          bad.append(("%s:%s:wrong-reply-type" % (PID, n), "%s must be refused with an error, got %s" % (n, r["t"])))
+          continue
+        hit = [a for a in allowed if r["etype"] == a[0] and (a[1] is None or r["code"] == a[1])]
+        if not hit:
+          bad.append(("%s:%s:wrong-error-code" % (PID, n), "%s refused with error type %d code %d, specification says %s"
+                      % (n, r["etype"], r["code"], " or ".join("type %d code %s" % a for a in allowed) if allowed else "nothing more")))
+        else:
+          if kind == "errors": allowed.remove(hit[0])        # one error per reason
         want = raw[:64]
         # POX re-encodes the decoded request (normalised wildcards / max_len), so only the header of the
         # echoed request and the amount of data are compared (see DESIGN.md, C13 scoping)
         if not (r["data"][:8] == raw[:8] and len(r["data"]) >= len(want)):
           bad.append(("%s:%s:error-data" % (PID, n), "error data is not (at least the first 64 bytes of) the failed request"))
-    model.apply(n)
+    post(replies)
   check_history.last_raws = raws
   return bad, total
 
@@ -221,33 +369,34 @@ def check_body (n, r, raw, model, st):
   elif n == "stats-desc":
     if "desc" not in r: b("stats-body", "desc stats body has %d bytes, specification says 1056" % len(r["body"]))
   elif n == "stats-flow":
-    if not r["wellformed"] or len(r["flows"]) != len(model.flows):
+    if not r["wellformed"] or (not model.vague and len(r["flows"]) != len(model.flows)):
       b("stats-body", "flow stats lists %d flows, %d installed" % (len(r.get("flows", [])), len(model.flows)))
   elif n in ("stats-flow-table1", "stats-flow-in2", "stats-flow-out2"):
     want = {"stats-flow-table1": 0, "stats-flow-in2": int("in2" in model.flows),
-            "stats-flow-out2": int("in1" in model.flows and model.out2)}[n]
-    if not r["wellformed"] or len(r["flows"]) != want:
+            "stats-flow-out2": model.count(lambda k, o: o == 2)}[n]
+    if not r["wellformed"] or ((n == "stats-flow-table1" or not model.vague) and len(r["flows"]) != want):
       b("stats-body", "%s lists %d flows, expected %d" % (n, len(r.get("flows", [])), want))
   elif n == "stats-aggregate-table1":
     if r.get("flow_count") != 0:
       b("stats-body", "aggregate stats for table 1 flow_count %r, expected 0" % (r.get("flow_count"),))
   elif n == "stats-aggregate":
-    if r.get("flow_count") != len(model.flows):
+    if r.get("flow_count") is None or (not model.vague and r.get("flow_count") != len(model.flows)):
       b("stats-body", "aggregate stats flow_count %r, %d installed" % (r.get("flow_count"), len(model.flows)))
   elif n == "stats-table":
-    if not r["wellformed"] or len(r["tables"]) != 1 or r["tables"][0]["active_count"] != len(model.flows):
+    if not r["wellformed"] or len(r["tables"]) != 1 or (not model.vague and r["tables"][0]["active_count"] != len(model.flows)):
       b("stats-body", "table stats %r, expected one table with active_count %d" % (r.get("tables"), len(model.flows)))
-    elif (r["tables"][0]["lookup_count"], r["tables"][0]["matched_count"]) != (model.lookups, model.matched):
-      b("stats-body:lookup-counters", "table stats lookup/matched counts %r, %d packets were submitted to the table and %d matched"
+    elif (model.lookups is not None and r["tables"][0]["lookup_count"] != model.lookups) or \
+         (model.matched is not None and r["tables"][0]["matched_count"] != model.matched):
+      b("stats-body:lookup-counters", "table stats lookup/matched counts %r, %s packets were submitted to the table and %s matched"
         % ((r["tables"][0]["lookup_count"], r["tables"][0]["matched_count"]), model.lookups, model.matched))
   elif n == "stats-port-all":
     got = dict((p["port_no"], p["tx_packets"]) for p in r["ports"])
-    if not r["wellformed"] or got != model.tx:
+    if not r["wellformed"] or sorted(got) != [1, 2, 3, 4] or (model.tx is not None and got != model.tx):
       b("stats-body", "port stats tx_packets %r, expected %r" % (got, model.tx))
   elif n == "stats-port-2":
     got = [(p["port_no"], p["tx_packets"]) for p in r["ports"]]
-    if got != [(2, model.tx[2])]:
-      b("stats-body", "port stats for port 2: %r, expected tx_packets %d" % (got, model.tx[2]))
+    if [g[0] for g in got] != [2] or (model.tx is not None and got != [(2, model.tx[2])]):
+      b("stats-body", "port stats for port 2: %r, expected tx_packets %s" % (got, model.tx and model.tx[2]))
   elif n == "stats-queue-all":
     if r["queues"]: b("stats-body", "queue stats lists queues on a switch without queues")
   elif n == "queue-get-config":
@@ -257,37 +406,50 @@ def check_body (n, r, raw, model, st):
 
 def _stack ():
   from mc.env import SwitchStack, VClock
-  # table capacity 2 = the two distinct flows of the alphabet: re-adding an installed flow happens at capacity, a third flow never
-  return SwitchStack(dpid=1, ports=4, max_buffers=4, clock=VClock(), max_entries=2)
+  # table capacity 2, three distinct flows in the alphabet: re-adding an installed flow happens at capacity, a third
+  # flow is refused with ALL_TABLES_FULL; 4 packet buffers
+  return SwitchStack(dpid=1, ports=4, max_buffers=4, clock=VClock(), max_entries=CAPACITY)
+
+
+def _one (names, reqs, rep):
+  bad, stream = check_history(names, reqs, rep, _stack)
+  rep.evaluations += 1
+  refused = check_history.refused
+  if not bad and len(names) > 1:
+    # differential: the same bytes in one read must give the same reply stream
+    bad2, stream2 = check_history(names, reqs, rep, _stack, batch=True, raws=check_history.last_raws)
+    rep.evaluations += 1
+    if bad2: bad = bad2
+    elif stream2 != stream:
+      bad = [("%s:%s:segmentation-changes-replies" % (PID, names[-1]), "replies differ when the requests arrive in one read")]
+    elif refused or any(reqs[n][1][0] in ("error", "answer") for n in names):
+      # histories with a refused request also with every message split over two reads
+      bad3, stream3 = check_history(names, reqs, rep, _stack, batch="split", raws=check_history.last_raws)
+      rep.evaluations += 1
+      if bad3: bad = bad3
+      elif stream3 != stream:
+        bad = [("%s:%s:segmentation-changes-replies:split" % (PID, names[-1]), "replies differ when every request arrives split over two reads")]
+  rep.outcome((names, stream, tuple(k for k, _ in bad)))
+  for k, what in bad:
+    rep.violation(k, what, dict(history=list(names)))
+  if rep.evaluations % 4000 == 1:
+    rep.sample(dict(history=list(names), reply_bytes=len(stream or b"")))
+  rep.state_count += 1
 
 
 def _worker (histories):
   from mc.env import boot
   boot()
-  reqs = dict((n, (f, e)) for n, f, e in requests())
+  R = requests()
+  reqs = dict((n, (f, e)) for n, f, e in R)
   rep = Report(PID, "model_checking")
+  rep.state_count = 0
   for names in histories:
-    bad, stream = check_history(names, reqs, rep, _stack)
-    rep.evaluations += 1
-    if not bad and len(names) > 1:
-      # differential: the same bytes in one read must give the same reply stream
-      bad2, stream2 = check_history(names, reqs, rep, _stack, batch=True, raws=check_history.last_raws)
-      rep.evaluations += 1
-      if bad2: bad = bad2
-      elif stream2 != stream:
-        bad = [("%s:%s:segmentation-changes-replies" % (PID, names[-1]), "replies differ when the requests arrive in one read")]
-      elif any(reqs[n][1][0] in ("error", "answer") for n in names):
-        # histories with a refused request also with every message split over two reads
-        bad3, stream3 = check_history(names, reqs, rep, _stack, batch="split", raws=check_history.last_raws)
-        rep.evaluations += 1
-        if bad3: bad = bad3
-        elif stream3 != stream:
-          bad = [("%s:%s:segmentation-changes-replies:split" % (PID, names[-1]), "replies differ when every request arrives split over two reads")]
-    rep.outcome((names, stream, tuple(k for k, _ in bad)))
-    for k, what in bad:
-      rep.violation(k, what, dict(history=list(names)))
-    if rep.evaluations % 4000 == 1: rep.sample(dict(history=list(names), reply_bytes=len(stream or b"")))
-  rep.state_count = len(histories)
+    if names and names[0] == "*":
+      # a prefix standing for all its one-request extensions (keeps the work list of the thorough tier small)
+      for n, f, e in R: _one(tuple(names[1:]) + (n,), reqs, rep)
+    else:
+      _one(names, reqs, rep)
   return rep
 
 
@@ -300,19 +462,99 @@ def long_history (names):
   return [tuple(seq[i:i+40]) for i in range(0, len(seq), 40)]
 
 
+# Requests whose handling neither reads nor writes switch state (fixed answer, no effect).  They take part in every
+# position of the full products; in the one deeper layer of the thorough tier they are only used as the LAST request
+# (a history with such a request in the middle is covered, one shorter, by the full product).
+INERT = ("echo-empty", "echo-body", "echo-big", "hello", "echo-reply", "vendor", "unknown-type", "barrier-with-body",
+         "get-config-with-body", "stats-desc", "stats-vendor", "stats-unknown", "queue-get-config",
+         "queue-get-config-absent", "stats-queue-all", "stats-queue-one", "stats-queue-allports-one")
+
+# Flow-mod variants that are enumerated in all pairs with every request, in the flow family and in the buffer family,
+# but not in the full product of the deepest layer (there the plain forms of the same commands stand for them).
+EXTENDED = ("flow-modify-strict", "flow-delete-in1", "flow-add-third", "flow-add-check-overlap", "flow-add-bad-buffer",
+            "flow-modify-bad-buffer", "flow-modify-strict-bad-buffer", "flow-delete-bad-buffer",
+            "flow-delete-strict-bad-buffer", "flow-add-last-buffer", "flow-modify-last-buffer",
+            "flow-modify-strict-last-buffer", "flow-emerg-bad-buffer", "flow-bad-command-bad-buffer")
+
+# Flow family: every flow-mod of the alphabet, everything that hands out / names / releases a packet buffer, and the
+# read-backs of table, buffers and port counters.
+FLOW_FAMILY_EXTRA = ("packet-out-table-1", "packet-out-table-3", "packet-out-controller", "packet-out-last-buffer",
+                     "stats-flow", "stats-flow-in2", "stats-flow-out2", "stats-aggregate", "stats-table", "stats-port-all",
+                     "barrier")
+
+# Buffer family (one request deeper than the flow family): buffers x flow-mods whose answer depends on the table.
+BUFFER_FAMILY = ("packet-out-table-1", "packet-out-table-3", "packet-out-controller", "packet-out-last-buffer",
+                 "flow-add", "flow-add-other", "flow-add-third", "flow-delete-all",
+                 "flow-add-last-buffer", "flow-modify-last-buffer", "flow-modify-strict-last-buffer",
+                 "flow-modify-bad-buffer", "stats-port-all", "stats-flow")
+
+
+def flow_family (R):
+  return tuple(n for n, f, e in R if e[0] == "flow") + FLOW_FAMILY_EXTRA
+
+
+def histories (cfg, R):
+  names = [n for n, f, e in R]
+  depth = 3                                   # deepest full product (quick and thorough)
+  main = [n for n in names if n not in EXTENDED]
+  ff = flow_family(R)
+  seen = set()
+  hs = []
+  def add (it):
+    for h in it:
+      if h not in seen:
+        seen.add(h); hs.append(h)
+  for d in range(1, depth):
+    add(itertools.product(names, repeat=d))
+  add(itertools.product(main, repeat=depth))
+  n_full = len(hs)
+  ff_depth = cfg.pick(3, 4)
+  for d in range(depth, ff_depth + 1):
+    add(itertools.product(ff, repeat=d))
+  n_ff = len(hs) - n_full
+  bf_depth = cfg.pick(4, 5)
+  for d in range(ff_depth + 1, bf_depth + 1):
+    add(itertools.product(BUFFER_FAMILY, repeat=d))
+  n_bf = len(hs) - n_full - n_ff
+  active = [n for n in names if n not in INERT]
+  deeper = []
+  if not cfg.quick:
+    # one request deeper than the full product: the first `depth` requests among the state-affecting ones
+    deeper = [("*",) + p for p in itertools.product(active, repeat=depth)]
+  longs = long_history(names)
+  return hs + deeper + longs, dict(depth=depth, main=len(main), full=n_full, active=len(active), deeper=len(deeper) * len(names),
+                                   ff=len(ff), ff_depth=ff_depth, n_ff=n_ff, bf_depth=bf_depth, n_bf=n_bf, longs=len(longs))
+
+
 def run (cfg):
   rep = Report(PID, "model_checking")
-  names = [n for n, f, e in requests()]
-  depth = cfg.pick(3, 4)
-  hs = []
-  for d in range(1, depth + 1):
-    hs += list(itertools.product(names, repeat=d))
-  hs += long_history(names)
-  rep.rule = ("all sequences of <=%d requests over %d controller-to-switch messages (distinct xids), each sent as "
-              "spec-encoded bytes message-by-message, again as one read and (histories with a refused request) with every message split over two reads, plus %d histories of 40 covering every ordered pair; "
-              "distinct = distinct (history, reply byte stream, verdict)" % (depth, len(names), len(long_history(names))))
-  rep.bound = dict(depth=depth, alphabet=len(names))
-  rep.assumptions = ["error codes asserted only where OpenFlow 1.0 names one", "HELLO/PACKET_IN/PORT_STATUS/FLOW_REMOVED are asynchronous, not replies"]
+  R = requests()
+  names = [n for n, f, e in R]
+  assert set(INERT) | set(EXTENDED) | set(BUFFER_FAMILY) | set(FLOW_FAMILY_EXTRA) <= set(names)
+  hs, info = histories(cfg, R)
+  rep.rule = ("all sequences of <=%d requests over %d controller-to-switch messages (distinct xids) and all sequences of %d over the %d of them "
+              "that are not flow-mod variants of an included plain form%s; "
+              "all sequences of <=%d requests over the %d-request flow family (every flow-mod of the alphabet: 5 commands + an unknown one x matches "
+              "in1/in2/in3/all x {no flag, EMERG, CHECK_OVERLAP} x buffer_id {none, never issued, most recent packet-in (valid / already used)} on a "
+              "table of capacity %d; the requests that hand out, name or release a packet buffer; flow/aggregate/table/port statistics, barrier); "
+              "all sequences of <=%d requests over the %d-request buffer family; the expected answer of every flow-mod is computed from the history; "
+              "each history is sent as spec-encoded bytes message-by-message, again as one read and (histories with a refused request) with every "
+              "message split over two reads; plus %d histories of 40 covering every ordered pair; "
+              "distinct = distinct (history, reply byte stream, verdict)"
+              % (info["depth"] - 1, len(names), info["depth"], info["main"],
+                 "" if cfg.quick else ", and all sequences of %d requests whose first %d are among the %d state-affecting ones"
+                 % (info["depth"] + 1, info["depth"], info["active"]),
+                 info["ff_depth"], info["ff"], CAPACITY, info["bf_depth"], len(BUFFER_FAMILY), info["longs"]))
+  rep.bound = dict(depth=info["depth"], alphabet=len(names), deepest_product_alphabet=info["main"], product_histories=info["full"],
+                   deeper_layer_histories=info["deeper"], flow_family_depth=info["ff_depth"], flow_family_alphabet=info["ff"],
+                   flow_family_histories=info["n_ff"], buffer_family_depth=info["bf_depth"], buffer_family_alphabet=len(BUFFER_FAMILY),
+                   buffer_family_histories=info["n_bf"], table_capacity=CAPACITY, buffers=4)
+  rep.assumptions = ["error codes asserted only where OpenFlow 1.0 names one", "HELLO/PACKET_IN/PORT_STATUS/FLOW_REMOVED are asynchronous, not replies",
+                     "a flow-mod answered with a buffer error (BUFFER_UNKNOWN/BUFFER_EMPTY) leaves the table contents undetermined until the next delete-all: "
+                     "OpenFlow 1.0 does not say whether the flow-mod is still carried out",
+                     "buffer_id is not meaningful for OFPFC_DELETE*: silence and a BAD_REQUEST error are both accepted",
+                     "a flow-mod refused for two reasons (refused command and bad buffer_id) may be answered with either error or one of each",
+                     "whether a refused flow-mod still releases a valid buffer, and whether a buffered packet handed to a flow-mod counts as a table lookup, is not judged"]
   for r in pmap(_worker, split(hs, cfg.workers * 4), cfg.workers, seed=cfg.seed):
     rep.merge(r)
   return rep
